@@ -407,8 +407,10 @@ def decide(pid, tier, seed):
                   known_findings_reproduced={k: len(v) for k, v in known_hits.items()},
                   proof_obligations_broken=proof_broken, notes=notes, exhaustive=False),
               assumptions=cfg.get("assumptions", []))
-    os.makedirs(os.path.join(VERIF, "evidence"), exist_ok=True)
-    json.dump(ev, open(os.path.join(VERIF, "evidence", pid + ".json"), "w"), indent=1)
+    # (self-tests on deliberately broken trees keep their evidence apart: VERIF_EVIDENCE_DIR)
+    evdir = os.environ.get("VERIF_EVIDENCE_DIR") or os.path.join(VERIF, "evidence")
+    os.makedirs(evdir, exist_ok=True)
+    json.dump(ev, open(os.path.join(evdir, pid + ".json"), "w"), indent=1)
     for l in lines:
         print(l)
     print("%s tier=%s seed=%d theorems=%d/%d evaluations=%d violations=%d wall=%.0fs" % (pid, tier, seed, discharged, obligations, evaluations, violations, time.time() - t0))
